@@ -157,6 +157,13 @@ func (e *p2env) sync() {
 		p := e.paths[i]
 		if !c.Present {
 			os.Remove(p)
+			// a deleted file takes its emptied sub-directories with it (as
+			// `rm -r sub/` would): Repair has to cope with that
+			for d := filepath.Dir(p); d != e.dir && len(d) > len(e.dir); d = filepath.Dir(d) {
+				if os.Remove(d) != nil {
+					break
+				}
+			}
 			continue
 		}
 		os.MkdirAll(filepath.Dir(p), 0755)
